@@ -25,7 +25,7 @@ func ipamHistSystems(cloud bool) []*HistSys {
 	if cloud {
 		ops["cloudfail"] = true
 	}
-	classes := append(append([]wkClass{}, histClasses...), wkClass{"stsmulti", ""}, wkClass{"stsmulti", "immutable"})
+	classes := append(append([]wkClass{}, histClasses...), wkClass{"stsmulti", ""}, wkClass{"stsmulti", "immutable"}, wkClass{"ststwin", "immutable"})
 	bound := []Op{{Kind: "create", A: 0}, {Kind: "sched", A: 0}, {Kind: "create", A: 1}, {Kind: "sched", A: 1}}
 	reserved := append(append([]Op{}, bound...), Op{Kind: "delete", A: 0}, Op{Kind: "deliver", A: 0}, Op{Kind: "delete", A: 1}, Op{Kind: "deliver", A: 0})
 	oneEach := append(append([]Op{}, bound...), Op{Kind: "delete", A: 0}, Op{Kind: "deliver", A: 0})
